@@ -2,7 +2,7 @@
 import math
 from pyvc.vc import contract
 from .common import *  # noqa
-from .lens import arbitrary_lens, SG
+from .lens import arbitrary_lens, SG, zs
 
 PROPERTY = 'C04'
 K_QUICK = 12
@@ -304,6 +304,45 @@ def _requery_contract(edit):
 
 for _e in ('set_index', 'set_radius', 'set_thickness', 'move_stop'):
     _requery_contract(_e)
+
+
+def _requery_object_distance(ap):
+    @contract('C04.requery_after.set_object_distance.' + ap, [PX + ':Paraxial.marginal_ray', PX + ':Paraxial.EPD', PX + ':Paraxial.EPL', PX + ':Paraxial.XPD',
+                                                             'optiland/optic.py:Optic.set_thickness'], ['C04', 'C13'], max_paths=64, groebner_s=40)
+    def rqo(c):
+        """the object distance of a finite-conjugate lens is changed in place (set_thickness on gap 0): the marginal ray, EPD and XPD are
+        the matrix-optics values for the *vertex separations* the lens now has (wherever the edit left the vertices in z)"""
+        n, stop = 4, 2
+        lens, v, apv, fy = _setup(c, n, stop, True, ap, 'object_height')
+        px = lens.paraxial
+        px.EPL(), px.EPD(), px.marginal_ray(), px.XPD()
+        T0 = c.real('new_object_distance', 5.0, 60.0, positive=True)
+        lens.set_thickness(T0, 0)
+        z_now = zs(c, lens)
+        v = dict(v)
+        v['z'] = [z_now[k] - z_now[1] for k in range(n)]          # separations only: the spec does not care where the lens sits in z
+        c.ensure_eq('C04.requery.object_distance_is_the_one_set', v['z'][0], -T0)
+        n0 = v['n'][0]
+        Af, Bf, Cf, Df = abcd(v, 1, stop, include_last_refraction=False)
+        c.require(Af != 0)
+        EPL = n0 * Bf / Af
+        c.require(EPL + T0 != 0)
+        if ap == 'EPD':
+            EPD = apv
+        else:
+            c.require(apv < n0)
+            EPD = 2 * (EPL + T0) * c.val(c.np.tan(c.np.arcsin(c.arr(apv / n0))))
+        c.ensure_eq('C04.requery.EPD_after_the_object_distance_edit', c.val(px.EPD()), EPD)
+        ya, ua = px.marginal_ray()
+        sp_ = spec_trace(v, 0, EPD / (2 * (EPL + T0)), -T0)
+        for k in range(1, n):
+            c.ensure_eq('C04.requery.marginal_ray_after_the_object_distance_edit', c.val(ya[k]), sp_[k - 1][0])
+            c.ensure_eq('C04.requery.marginal_ray_after_the_object_distance_edit', c.val(ua[k]), sp_[k - 1][1])
+    return rqo
+
+
+for _ap in ('EPD', 'objectNA'):
+    _requery_object_distance(_ap)
 
 
 # ---- reflecting systems: index sign reversal -------------------------------------------------------------------------------------
